@@ -24,7 +24,17 @@ WellFormed(fs) == fs.sub = "absent" => fs.c = "absent"
 (* Besides these a state may hold numbered regular files /w/n/<i>-nnn... (distinct files for   *)
 (* long batches): a trace-level state has a field n (files 1..n planted), the internal state   *)
 (* has ns = the set of indices present.                                                       *)
-Internal(f) == [a |-> f.a, b |-> f.b, sub |-> f.sub, c |-> f.c, ns |-> 1..f.n]
+(* Long legal paths (error texts embed the path, so many failing items make a long reply):     *)
+(* if ld = 1 a chain of fifteen 250-byte directories /w/L250/L250/... is planted; an item with  *)
+(* p = "L" names  what = "dir":  the prefix of 4 / 8 / 15 components (len 1 / 2 / 3 = about      *)
+(* 1 / 2 / 3.8 KiB), an existing directory;  what = "miss": <that prefix>/miss-<idx>, absent     *)
+(* until somebody creates it (ls = regular files, lk = symlinks created there).                  *)
+Internal(f) == [a |-> f.a, b |-> f.b, sub |-> f.sub, c |-> f.c, ns |-> 1..f.n, ld |-> f.ld, ls |-> {}, lk |-> {}]
+LongKind(fs, x) ==
+  IF fs.ld = 0 THEN "noparent"
+  ELSE IF x.what = "dir" THEN "dir"
+  ELSE IF <<x.len, x.idx>> \in fs.ls THEN "regular"
+  ELSE IF <<x.len, x.idx>> \in fs.lk THEN "symreg" ELSE "absent"
 
 OpenPaths == {"a", "b", "c", "dev", "target"}      \* + "n" with an index (numbered file)
 Modes == {"r", "w", "rw"}     \* O_RDONLY | O_WRONLY|O_CREAT|O_TRUNC | O_RDWR|O_CREAT
@@ -40,8 +50,11 @@ SetKind(fs, p, k) ==
   CASE p = "a" -> [fs EXCEPT !.a = k] [] p = "b" -> [fs EXCEPT !.b = k] [] p = "c" -> [fs EXCEPT !.c = k]
     [] OTHER -> fs
 
-ItemKind(fs, it) == IF it.p = "n" THEN (IF it.idx \in fs.ns THEN "regular" ELSE "absent") ELSE KindOf(fs, it.p)
-Created(fs, it) == IF it.p = "n" THEN [fs EXCEPT !.ns = @ \cup {it.idx}] ELSE SetKind(fs, it.p, "regular")
+ItemKind(fs, it) == IF it.p = "n" THEN (IF it.idx \in fs.ns THEN "regular" ELSE "absent")
+                    ELSE IF it.p = "L" THEN LongKind(fs, it) ELSE KindOf(fs, it.p)
+Created(fs, it) == IF it.p = "n" THEN [fs EXCEPT !.ns = @ \cup {it.idx}]
+                   ELSE IF it.p = "L" THEN [fs EXCEPT !.ls = @ \cup {<<it.len, it.idx>>}]
+                   ELSE SetKind(fs, it.p, "regular")
 
 (* ---- Open: one item.  MkdirAll of the parent first (it stays even if the item fails),  *)
 (* then: a descriptor iff the path is a regular file, or is absent and the flags create;  *)
@@ -66,7 +79,10 @@ LinkTargets == {"target", "tdir", "probe", "dev", "nowhere"}
 SymKind(to) == CASE to = "target" -> "symreg" [] to = "tdir" -> "symdir" [] to = "probe" -> "symout"
                  [] to = "dev" -> "symdev" [] to = "nowhere" -> "dangling"
 LinkItem(fs, l) ==
-  IF KindOf(fs, l.link) = "absent" THEN [r |-> "ok", fs |-> SetKind(fs, l.link, SymKind(l.to))]
+  IF l.link = "L"
+    THEN IF LongKind(fs, l) = "absent" THEN [r |-> "ok", fs |-> [fs EXCEPT !.lk = @ \cup {<<l.len, l.idx>>}]]
+         ELSE [r |-> "err", fs |-> fs]
+  ELSE IF KindOf(fs, l.link) = "absent" THEN [r |-> "ok", fs |-> SetKind(fs, l.link, SymKind(l.to))]
   ELSE [r |-> "err", fs |-> fs]
 LinkBatch(fs, links) ==
   FoldLeft(LAMBDA acc, l : LET r == LinkItem(acc.fs, l) IN [res |-> Append(acc.res, r.r), fs |-> r.fs],
@@ -87,4 +103,6 @@ Shows(obs, fs) ==
   /\ obs.c = (IF fs.sub = "dir" THEN fs.c ELSE "absent")
   /\ obs.target = "regular" /\ obs.tdir = "dir" /\ obs.nowhere = "absent" /\ obs.dev = "device"
 ShowsN(count, fs) == count = Cardinality(fs.ns)     \* entries of /w/n
+ShowsL(deep, count, fs) ==                          \* the long chain and the miss-* entries in it
+  /\ deep = (IF fs.ld = 1 THEN "dir" ELSE "absent") /\ count = Cardinality(fs.ls) + Cardinality(fs.lk)
 =============================================================================
